@@ -148,6 +148,20 @@ Theorem C08_twin_starting_point :
 Proof. intros O B others cfg xs s H. eapply paired_start; exact H. Qed.
 Print Assumptions C08_twin_starting_point.
 
+(* ... and registration establishes it: when B is attached to a Hexital whose members so far are
+   all "other" members - at construction or by add_indicator, on the default manager, on an
+   existing timeframe or on one created for it - the invariant holds with the twin starting from
+   the candles B's manager holds at that moment (for a Hexital without timeframe and lifespan
+   that is the collapse of the whole raw stream so far: C08_member_timeframes_are_standalone_managers) *)
+Theorem C08_registering_a_member_starts_the_twin :
+  forall (O : NumOps) (B : ind O) (others : list (bool * string)) (hcfg : mcfg) (h h' : hexital O) (own : option (string * Z)),
+  Forall (other_ok O B others) (h_members O h) ->
+  (own = None -> exists c s, alist_get "default"%string (h_mgrs O h) = Some (c, s)) ->
+  hx_attach O hcfg h B own = Ok h' ->
+  exists key cfg s, alist_get key (h_mgrs O h') = Some (cfg, s) /\ Inv O B others key cfg h' s.
+Proof. intros O B others hcfg h h' own Hm Hd H. eapply inv_after_attach; eassumption. Qed.
+Print Assumptions C08_registering_a_member_starts_the_twin.
+
 (* the invariant and the allowed operations are inhabited: an SMA(2) next to an SMA(3) on a
    five-minute timeframe with gap filling, built over four raw candles with a hole *)
 Local Open Scope string_scope.
